@@ -369,6 +369,7 @@ def render(root, rng, layout="compact", value=None):
     emit(lead + value + "," + (" " if layout == "compact" else nl))
     prev[0] = None
     poff = pos[0]
+    root.info["poff"] = poff
     go(root)
     return "".join(out), poff
 
